@@ -902,7 +902,9 @@ func (p *parser) parseForStatement() Node {
 		forNode.Range = n
 	case ARRAY:
 		if forNode.LoopVar != nil {
-			forNode.LoopVar.T = t.infer().Sub
+			// the loop variable is a variable: its type is fixed even if
+			// the range is over an array literal.
+			forNode.LoopVar.T = fixedType(t.infer().Sub)
 		}
 		forNode.Range = n
 	case NUM:
